@@ -53,3 +53,201 @@ Proof.
   rewrite (lookup_filter (fun x => negb (mem x (keys kf)))).
   rewrite mem_keys_lookup, Hk. reflexivity.
 Qed.
+
+(* ---------- custom members of credentials and presentations ---------- *)
+Lemma keys_app : forall a b : obj, keys (a ++ b) = keys a ++ keys b.
+Proof. intros. unfold keys. apply map_app. Qed.
+
+Lemma keys_opt_member : forall k o x, In x (keys (opt_member k o)) -> x = k.
+Proof. intros k [v|] x H; cbn in H; [destruct H as [H|[]]; auto|destruct H]. Qed.
+
+Lemma keys_emit_str : forall k s om x, In x (keys (emit_str k s om)) -> x = k.
+Proof. intros k s om x H. unfold emit_str in H. destruct (om && (s =? "")); cbn in H; [destruct H|destruct H as [H|[]]; auto]. Qed.
+
+Definition vc_names : list string :=
+  ["@context"; "id"; "type"; "credentialSubject"; "issuanceDate"; "expirationDate"; "proof"; "credentialStatus";
+   "issuer"; "credentialSchema"; "evidence"; "termsOfUse"; "refreshService"; "_sd_alg"].
+
+Lemma raw_vc_keys : forall v x, In x (keys (raw_vc v)) -> In x vc_names.
+Proof.
+  intros v x H. unfold raw_vc in H. repeat rewrite keys_app in H.
+  repeat (apply in_app_or in H; destruct H as [H|H]);
+    try (apply keys_opt_member in H); try (apply keys_emit_str in H);
+    try (cbn in H; destruct H as [H|[]]; symmetry in H);
+    subst x; cbn; tauto.
+Qed.
+
+Lemma lookup_none_notin : forall (m : obj) k, ~ In k (keys m) -> lookup m k = None.
+Proof.
+  induction m as [|[k' v] r IH]; intros k H; cbn; [reflexivity|].
+  destruct (String.eqb k k') eqn:E.
+  - apply String.eqb_eq in E. subst. exfalso. apply H. cbn. auto.
+  - apply IH. intro Hi. apply H. cbn. auto.
+Qed.
+
+Lemma mem_false_notin : forall k l, ~ In k l -> mem k l = false.
+Proof.
+  induction l as [|a r IH]; intros H; cbn; [reflexivity|].
+  destruct (String.eqb k a) eqn:E.
+  - apply String.eqb_eq in E. subst. exfalso. apply H. cbn. auto.
+  - cbn. apply IH. intro Hi. apply H. cbn. auto.
+Qed.
+
+Lemma lookup_f64j_obj : forall (m : obj) k,
+  lookup (map (fun kv => (fst kv, f64j (snd kv))) m) k = option_map f64j (lookup m k).
+Proof. exact lookup_f64o. Qed.
+
+Lemma top_cf_lookup : forall fs (m : obj) k,
+  ~ In k (map (fun f => fst (fst f)) fs) -> lookup (top_cf fs m) k = option_map f64j (lookup m k).
+Proof.
+  intros fs m k H. unfold top_cf, split_cf. rewrite lookup_f64o.
+  rewrite (lookup_filter (fun x => negb (mem x (map (fun f => fst (fst f)) (filter (emitted_on_parse m) fs))))).
+  rewrite mem_false_notin; [reflexivity|].
+  intro Hi. apply H. clear H. induction fs as [|f r IH]; cbn in *; [exact Hi|].
+  destruct (emitted_on_parse m f); cbn in Hi; [destruct Hi as [Hi|Hi]; auto|auto].
+Qed.
+
+Lemma parse_vc_cf : forall m v, parse_vc (JObj m) = Some v -> v_cf v = top_cf rawCredential_fields m.
+Proof.
+  intros m v H. cbn in H. unfold bind in H.
+  repeat match type of H with
+         | match ?e with _ => _ end = _ => destruct e; [|discriminate]
+         end.
+  inversion H. reflexivity.
+Qed.
+
+(* a custom member (a name that is not one of the raw struct's members) comes back as its float64 image *)
+Lemma vc_custom_member : forall m v k,
+  parse_vc (JObj m) = Some v ->
+  ~ In k (map (fun f => fst (fst f)) rawCredential_fields) ->
+  match marshal_vc v with JObj o => lookup o k | _ => None end = option_map (fun x => f64j (f64j x)) (lookup m k).
+Proof.
+  intros m v k Hp Hk. unfold marshal_vc. cbn [f64j].
+  rewrite lookup_f64j_obj. unfold merge_cf. rewrite lookup_app.
+  rewrite (lookup_none_notin (raw_vc v)).
+  2:{ intro Hi. apply raw_vc_keys in Hi. apply Hk. cbn. cbn in Hi. tauto. }
+  rewrite (lookup_filter (fun x => negb (mem x (keys (raw_vc v))))).
+  rewrite mem_false_notin.
+  2:{ intro Hi. apply raw_vc_keys in Hi. apply Hk. cbn. cbn in Hi. tauto. }
+  cbn [negb]. rewrite (parse_vc_cf _ _ Hp). rewrite top_cf_lookup by exact Hk.
+  destruct (lookup m k); reflexivity.
+Qed.
+
+(* exact numbers are not touched *)
+Lemma f64abs_small : forall a, (0 <= a <= two53)%Z -> f64abs a = a.
+Proof. intros a H. unfold f64abs. destruct (Z.leb_spec a two53); [reflexivity|lia]. Qed.
+
+Lemma f64round_small : forall z, (Z.abs z <= two53)%Z -> f64round z = z.
+Proof.
+  intros z H. unfold f64round. destruct (Z.ltb_spec z 0).
+  - rewrite f64abs_small; lia.
+  - apply f64abs_small. lia.
+Qed.
+
+Lemma f64j_exact : forall j, exact j = true -> f64j j = j.
+Proof.
+  induction j using json_ind'; cbn; intros He; try reflexivity.
+  - rewrite f64round_small; [reflexivity|]. apply Z.leb_le. exact He.
+  - f_equal. induction l as [|x r IHr]; cbn in *; [reflexivity|].
+    apply andb_prop in He. destruct He as [Hx Hr]. inversion H; subst. f_equal; auto.
+  - f_equal. induction m as [|[k x] r IHr]; cbn in *; [reflexivity|].
+    apply andb_prop in He. destruct He as [Hx Hr]. inversion H; subst. cbn in *. f_equal; [f_equal; auto|auto].
+Qed.
+
+(* ---------- presentations ---------- *)
+Definition vp_names : list string := ["@context"; "id"; "type"; "verifiableCredential"; "holder"; "proof"].
+
+Lemma raw_vp_keys : forall w p x, In x (keys (raw_vp w p)) -> In x vp_names.
+Proof.
+  intros w p x H. unfold raw_vp in H. repeat rewrite keys_app in H.
+  repeat (apply in_app_or in H; destruct H as [H|H]);
+    try (apply keys_opt_member in H); try (apply keys_emit_str in H);
+    try (cbn in H; destruct H as [H|[]]; symmetry in H);
+    subst x; cbn; tauto.
+Qed.
+
+Lemma parse_vp_cf : forall m p, parse_vp (JObj m) = Some p -> p_cf p = top_cf rawPresentation_fields m.
+Proof.
+  intros m p H. cbn in H. unfold bind in H.
+  repeat match type of H with
+         | match ?e with _ => _ end = _ => destruct e; [|discriminate]
+         end.
+  inversion H. reflexivity.
+Qed.
+
+Lemma vp_custom_member : forall w m p k,
+  parse_vp (JObj m) = Some p ->
+  ~ In k (map (fun f => fst (fst f)) rawPresentation_fields) ->
+  match marshal_vp w p with JObj o => lookup o k | _ => None end = option_map (fun x => f64j (f64j x)) (lookup m k).
+Proof.
+  intros w m p k Hp Hk. unfold marshal_vp. cbn [f64j].
+  rewrite lookup_f64j_obj. unfold merge_cf. rewrite lookup_app.
+  rewrite (lookup_none_notin (raw_vp w p)).
+  2:{ intro Hi. apply raw_vp_keys in Hi. apply Hk. cbn. cbn in Hi. tauto. }
+  rewrite (lookup_filter (fun x => negb (mem x (keys (raw_vp w p))))).
+  rewrite mem_false_notin.
+  2:{ intro Hi. apply raw_vp_keys in Hi. apply Hk. cbn. cbn in Hi. tauto. }
+  cbn [negb]. rewrite (parse_vp_cf _ _ Hp). rewrite top_cf_lookup by exact Hk.
+  destruct (lookup m k); reflexivity.
+Qed.
+
+Lemma vp_context_kept : forall p,
+  match marshal_vp Fixed p with JObj o => lookup o "@context" | _ => None end
+  = Some (f64j (enc_context (p_ctx p) (p_cctx p))).
+Proof. intros p. unfold marshal_vp. cbn [f64j]. rewrite lookup_f64j_obj. reflexivity. Qed.
+
+(* ---------- single/array coders ---------- *)
+Lemma mapM_strs : forall l, mapM (fun j => match j with JStr s => Some s | _ => None end) (map JStr l) = Some l.
+Proof. induction l as [|s r IH]; cbn; [reflexivity|]. rewrite IH. reflexivity. Qed.
+
+Lemma types_roundtrip : forall l, dec_types (Some (enc_types l)) = Some l.
+Proof.
+  intros [|s [|t r]]; cbn; try reflexivity.
+  change (JStr s :: JStr t :: map JStr r) with (map JStr (s :: t :: r)). rewrite mapM_strs. reflexivity.
+Qed.
+
+Lemma span_str_strs : forall ss cs,
+  match cs with JStr _ :: _ => False | _ => True end -> span_str (map JStr ss ++ cs) = (ss, cs).
+Proof.
+  induction ss as [|s r IH]; intros cs H; cbn.
+  - destruct cs as [|[] t]; cbn in *; try reflexivity. destruct H.
+  - rewrite IH by exact H. reflexivity.
+Qed.
+
+Lemma context_roundtrip : forall ss cs,
+  match cs with JStr _ :: _ => False | _ => True end ->
+  dec_context (Some (enc_context ss cs)) = Some (ss, map f64j cs).
+Proof. intros ss cs H. unfold enc_context, dec_context. rewrite span_str_strs by exact H. reflexivity. Qed.
+
+(* ---------- fingerprints ---------- *)
+Lemma skipn_app_exact : forall {A} (a b : list A), skipn (List.length a) (a ++ b) = b.
+Proof. induction a; cbn; auto. Qed.
+
+Lemma fp_roundtrip_table : forall code key,
+  In code (map snd multicodec_table) -> code <> g1g2_code ->
+  fp_decode (fp_bytes code key) = Some (key, code).
+Proof.
+  intros code key Hin Hne. cbn in Hin.
+  repeat (destruct Hin as [Hin|Hin]; [subst code; try (exfalso; apply Hne; reflexivity); reflexivity|]).
+  destruct Hin.
+Qed.
+
+Lemma fp_g1g2 : forall g1 g2,
+  List.length g1 = g1_size -> List.length g2 = g2_size ->
+  fp_decode (fp_bytes g1g2_code (g1 ++ g2)) = Some (g2, g1g2_code).
+Proof.
+  intros g1 g2 H1 H2. unfold fp_decode, fp_bytes.
+  change (varint g1g2_code) with [238%N; 1%N].
+  change (uvarint ([238%N; 1%N] ++ g1 ++ g2)) with (238%N, 2%nat).
+  cbn [Nat.ltb Nat.leb N.eqb g1g2_code Pos.eqb].
+  change (2 + g1_size)%nat with (S (S g1_size)). cbn [skipn app].
+  rewrite <- H1, skipn_app_exact, H2, Nat.eqb_refl. reflexivity.
+Qed.
+
+Lemma didkey_roundtrip_table : forall code key,
+  In code didkey_codes -> code <> g1g2_code -> didkey_decode (fp_bytes code key) = Some key.
+Proof.
+  intros code key Hin Hne. cbn in Hin.
+  repeat (destruct Hin as [Hin|Hin]; [subst code; try (exfalso; apply Hne; reflexivity); reflexivity|]).
+  destruct Hin.
+Qed.
